@@ -21,3 +21,29 @@ package service
 //@ requires nonnil(t) && nonnil(r) && klog.off(t) >= 0
 //@ let n = roundTo(klog.off(t), r.ToInt())
 //@ ensures typeis(result, *klog.time) && klog.off(result) == ite(n < 2880, n, 2879)
+
+// ---------------------------------------------------------------------------------------------
+// evaluate.go — property C02: the total is the sum, over all records and all their entries, of edur(entry);
+// the should-total sum is the sum of the records' should-totals; the diff is total minus should-total.
+
+//@ spec recTotal(r klog.Record) int = sum(j, 0, len(r.(*klog.record).entries), klog.edur(r.(*klog.record).entries[j]))
+//@ spec recShould(r klog.Record) int = ite(isnil(r.(*klog.record).shouldTotal), 0, r.(*klog.record).shouldTotal.(klog.shouldTotal).Duration.(*klog.duration).minutes)
+
+// Overflow of the running sum is excluded by the precondition (every prefix sum is small): totals beyond
+// 2^62 minutes are the known limitation F3b.
+//@ func Total
+//@ requires forall(i, 0, len(rs), typeis(rs[i], *klog.record))
+//@ requires forall(i, 0, len(rs), forall(j, 0, len(rs[i].(*klog.record).entries)+1, klog.small(sum(a, 0, i, recTotal(rs[a])) + sum(b, 0, j, klog.edur(rs[i].(*klog.record).entries[b])))))
+//@ ensures typeis(result, *klog.duration) && result.(*klog.duration).minutes == old(sum(i, 0, len(rs), recTotal(rs[i])))
+//@ loop 1 invariant typeis(total, *klog.duration) && total.(*klog.duration).minutes == old(sum(i, 0, rangeindex+1, recTotal(rs[i])))
+//@ loop 2 invariant typeis(total, *klog.duration) && total.(*klog.duration).minutes == old(sum(i, 0, loopindex(1)+1, recTotal(rs[i]))) + old(sum(j, 0, rangeindex+1, klog.edur(rs[loopindex(1)+1].(*klog.record).entries[j])))
+
+//@ func ShouldTotalSum
+//@ requires forall(i, 0, len(rs), typeis(rs[i], *klog.record))
+//@ requires forall(i, 0, len(rs)+1, klog.small(sum(a, 0, i, recShould(rs[a]))))
+//@ ensures typeis(result, klog.shouldTotal) && result.InMinutes() == old(sum(i, 0, len(rs), recShould(rs[i])))
+//@ loop 1 invariant typeis(total, *klog.duration) && total.(*klog.duration).minutes == old(sum(i, 0, rangeindex+1, recShould(rs[i])))
+
+//@ func Diff
+//@ requires nonnil(should) && nonnil(actual) && klog.small(should.InMinutes()) && klog.small(actual.InMinutes())
+//@ ensures nonnil(result) && result.InMinutes() == actual.InMinutes() - should.InMinutes()
